@@ -373,6 +373,22 @@ func runPlanRules(c *Ctx, validity, timeRules bool) {
 		}
 	}
 
+	if validity {
+		// the snapshot listing the plan starts from is complete
+		listingCompleteness(c, "R1-snapshot-choice", plan)
+		// every level is listed from the beginning: `seek` filters on MinTXID, and a
+		// compacted file that starts at or before the end of the chosen snapshot and
+		// extends beyond it is exactly what the contiguity rule needs to see
+		nl := 0
+		for _, call := range callsToDeep(plan, isLTXFiles) {
+			nl++
+			sk := namedArg(call, "seek")
+			c.check(sk != nil && vConstInt(0)(sk) && isConst(sk), "R7-levels-listed-from-start", fnName(plan)+": LTXFiles(level, seek = 0)", c.pos(call), "constant 0",
+				"a level is listed from a later TXID: files whose MinTXID lies before it (but which extend the plan) are never offered, so a reachable target is reported missing or a latest-state restore stops early")
+		}
+		c.floor("R7-levels-listed-from-start", nl, 2, "LTXFiles calls in CalcRestorePlan")
+	}
+
 	if timeRules {
 		// C15-R3: listings request accurate timestamps when restoring by time.
 		const rule = "R3-use-metadata"
